@@ -62,7 +62,8 @@ def gen_filter(tier, rng):
     for c in range(n):
         k = rng.randint(1, 3)
         fr = [gen_frame(rng) for _ in range(k)]
-        pc = pcap_file(fr, magic=rng.choice([0xA1B2C3D4, 0xA1B23C4D]))
+        pc = pcap_file([(f, dict(ts_sec=rng.getrandbits(31), ts_usec=rng.randint(0, 999999), wirelen=len(f) + rng.choice([0, 0, 40, 1454]))) for f in fr],
+                       magic=rng.choice([0xA1B2C3D4, 0xA1B23C4D]), snaplen=rng.choice([65535, 262144]))
         nf = rng.randint(1, 3)
         prog = "\n".join("@ { %s }" % reads(rng, "$1", first=(j == 0)) for j in range(nf)) + "\n@ true\n"
         if rng.random() < 0.3:
@@ -97,7 +98,8 @@ def gen_file(tier, rng):
     for c in range(n):
         k = rng.randint(1, 3)
         fr = [gen_frame(rng) for _ in range(k)]
-        pc = pcap_file(fr)
+        # the copy is written with the default global header, so the input uses it too; record headers vary (snapped captures)
+        pc = pcap_file([(f, dict(ts_sec=rng.getrandbits(31), ts_usec=rng.randint(0, 999999), wirelen=len(f) + rng.choice([0, 0, 40, 1454]))) for f in fr])
         body = reads(rng, "p.eth")
         prog = ('let f = pcap_open("@TMP@/in.pcap"); let ps = pcap_read_all(f); let o = pcap_open("@TMP@/out.pcap", "w"); let w = open("@TMP@/w.bin", "w");\n'
                 'let i = 0; while i < len(ps) { let p = ps[i]; fn rd(p) { %s } rd(p); pcap_write(o, p); write(w, p); i = i + 1; }\nflush(w);\n' % body.replace("$", "p_dollar_"))
